@@ -754,4 +754,44 @@ void queue_callback_consumer(const vf::opts &o, vf::report &R, uint64_t cases) {
     }
 }
 
+
+// ---------------------------------------------------------------------------------------------
+// The documented single-consumer configuration: queue<T, std_queue, single_item_queue> parks at most ONE waiting pop. A second pop while
+// one is waiting is refused with an exception thrown out of pop() - and that must be all: the queue stays usable, the waiting pop is
+// served by the next push, later items are delivered once and in order, size()/empty() keep answering (a queue left locked by the
+// refused call blocks the very next operation: hang verdict).
+using q1_t = cocls::queue<int, cocls::primitives::std_queue, cocls::primitives::single_item_queue>;
+inline cocls::async<void> q1_popper(q1_t &q, std::vector<int> &got, int &refused, int &canceled) {
+    try { cocls::future<int> f = q.pop(); int v = co_await f; got.push_back(v); }
+    catch (const std::runtime_error &) { refused++; }
+    catch (const cocls::await_canceled_exception &) { canceled++; }
+}
+inline void queue_single_consumer(const vf::opts &o, vf::report &R, uint64_t cases) {
+    vf::rng master(vf::mix(o.seed, 0x0951));
+    for (uint64_t cn = 0; cn < cases && R.nviol() < 5; cn++) {
+        vf::rng r(master.next());
+        vf::set_crash_ctx(R.prop.c_str(), "queue_single_consumer", o.seed, cn);
+        std::string err, desc;
+        std::vector<int> got, pushed; int refused = 0, canceled = 0, want_refused = 0;
+        int stored = 0; bool waiting = false; size_t delivered = 0;
+        {
+            auto q = std::make_unique<q1_t>();
+            int len = 3 + (int)r.below(14);
+            for (int i = 0; i < len && err.empty(); i++) {
+                uint32_t x = r.below(10);
+                if (x < 5) { desc += "pop "; if (stored > 0) { stored--; delivered++; } else if (waiting) want_refused++; else waiting = true; q1_popper(*q, got, refused, canceled).detach(); }
+                else if (x < 8) { desc += "push "; pushed.push_back(100 + i); if (waiting) { waiting = false; delivered++; } else stored++; q->push(100 + i); }
+                else { desc += "size "; if (q->size() != (size_t)stored) err = "size() is " + std::to_string(q->size()) + ", expected " + std::to_string(stored); if (q->empty() != (stored == 0) && err.empty()) err = "empty() disagrees"; }
+                if (err.empty() && (got.size() != delivered || refused != want_refused)) err = "after '" + desc.substr(desc.size() > 30 ? desc.size() - 30 : 0) + "': " + std::to_string(got.size()) + " items delivered (expected " + std::to_string(delivered) + "), " + std::to_string(refused) + " pops refused (expected " + std::to_string(want_refused) + ")";
+            }
+        }
+        R.cases++;
+        if (err.empty()) for (size_t k = 0; k < got.size(); k++) if (got[k] != pushed[k]) { err = "items delivered out of order / duplicated"; break; }
+        if (err.empty() && canceled != (waiting ? 1 : 0)) err = "the waiting pop was not ended exactly once by the destruction of the queue";
+        if (!err.empty()) { R.violation("monitor:delivery|queue_single_consumer", err, vf::jobj().kv("case", (unsigned long long)cn).kv("seed", (unsigned long long)o.seed).kv("ops", desc).str()); continue; }
+        if (want_refused) R.cls("histories_with_a_refused_second_pop");
+        R.nontrivial_cases++; R.sig(desc);
+    }
+}
+
 } // namespace scn
